@@ -583,7 +583,7 @@ theorem getD_set {β : Type} (L : List β) (s i : Nat) (x d : β) :
   · subst h
     by_cases hl : s < L.length
     · simp [hl]
-    · simp [hl, List.getElem?_eq_none (Nat.le_of_not_lt hl)]
+    · simp [hl]
   · have : ¬ (i = s) := fun e => h e.symm
     simp [h, this]
 
